@@ -36,8 +36,32 @@ def _sterm(eng, k, v):
     return z3.If(m == 1, _real(v), z3.If(m == -1, -_real(v), _real(v) * m))
 
 
+def _aterm(eng, k, v):
+    m = T.amono(eng.facts.key(k))
+    return z3.If(m == 0, z3.RealVal(0), z3.If(m == 1, _real(v), _real(v) * m))
+
+
+def _asterm(eng, k, v):
+    m = T.asmono(eng.facts.key(k))
+    return z3.If(m == 1, _real(v), z3.If(m == -1, -_real(v), _real(v) * m))
+
+
 deffold("bden", "sum", T.Real, _bterm)
 deffold("sden", "sum", T.Real, _sterm)
+deffold("aden", "sum", T.Real, _aterm)        # the same sums at the second ghost assignment
+deffold("asden", "sum", T.Real, _asterm)
+
+
+def pfold_subset(eng, ver, arr):
+    """all-fold with a parameter: every key of the dict has all its labels in the set `arr`"""
+    eng.facts.enable_sets()
+    name = "within@%d" % arr.get_id()
+    if name not in FOLDS:
+        F = Fold(name, "all", T.Bool,
+                 lambda e, k, v, arr=arr: e.facts.set_subset(e.facts.memset_of(k), arr), T.Key)
+        F.param = arr
+        FOLDS[name] = F
+    return fold(eng, ver, name)
 deffold("size", "sum", T.Int, lambda eng, k, v: z3.IntVal(1))
 deffold("allconst", "all", T.Bool, lambda eng, k, v: z3.Length(k) == 0)
 deffold("nozero", "all", T.Bool, lambda eng, k, v: v != 0)
@@ -174,6 +198,14 @@ def fold(eng, ver, name):
     if F.kind == "all":
         for (k, v) in ver.picked:
             eng.facts.add(z3.Implies(r, F.fn(eng, k, v)))
+    if name.startswith("within@"):
+        # monotone in the parameter: within(A) and A subset B  ==>  within(B)   (same version)
+        arr = F.param
+        for other, oval in list(ver.cache.items()):
+            if other != name and other.startswith("within@"):
+                oarr = FOLDS[other].param
+                eng.facts.add(z3.Implies(z3.And(oval, eng.facts.set_subset(oarr, arr)), r))
+                eng.facts.add(z3.Implies(z3.And(r, eng.facts.set_subset(arr, oarr)), oval))
     # congruence: dict versions asserted (conditionally) equal have equal folds
     for (va, vb, cond) in getattr(eng, "store_eqs", ()):
         other = vb if va is ver else (va if vb is ver else None)
@@ -188,4 +220,6 @@ def assert_same(eng, va, vb, cond):
         eng.store_eqs = []
     eng.store_eqs.append((va, vb, cond))
     for name in (set(va.cache) | set(vb.cache)) & set(FOLDS):
+        if name.startswith("within@"):
+            continue
         eng.facts.add(z3.Implies(cond, fold(eng, va, name) == fold(eng, vb, name)))
